@@ -803,7 +803,7 @@ int main(int argc, char **argv) {
     }
   }
   // 3. object histories: mutators and observations interleaved on one Circuit object
-  long long nh = a.thorough() ? 60000 : (a.search() ? 20000 : 6000);
+  long long nh = a.thorough() ? 80000 : (a.search() ? 30000 : 10000);
   for (long long i = 0; i < nh; ++i) {
     vh::Rng g = vh::Rng::forCase(a.seed, 3000000000ll + i);
     vhist::State init;
